@@ -491,6 +491,7 @@ def monitors_popen(s, drv, rep):
     reported = None
     finished_at_op = None
     killed_at = None
+    found_reaped = None     # index of the first query that ran a status check after somebody else had reaped the child
     for i, o in enumerate(ops):
         name, val = o["name"], o["value"]
         t0, t1, calls = int(o["t0"]), int(o["t1"]), int(o["calls"])
@@ -529,7 +530,14 @@ def monitors_popen(s, drv, rep):
             finished_at_op = i
         if is_query and val.startswith("err:"):
             fails["C09"].append("op#%d %s returned an error (%s)" % (i + 1, name, val))
+        if is_query and name != "status" and found_reaped is None and reap is not None and nwait >= 1 and t0 >= reap:
+            found_reaped = i
         # C10: signalling
+        if (name in ("term", "kill") or name.startswith("sig")) and found_reaped is not None and reported is None:
+            kills_ = [c for c in log if c.startswith("kill(")]
+            if kills_ or val != "unit":
+                fails["C10"].append("op#%d %s after op#%d had found the child reaped by someone else: sent %s, returned %s (expected no signal and success)" % (
+                    i + 1, name, found_reaped + 1, kills_, val))
         if name in ("term", "kill") or name.startswith("sig"):
             want_sig = 15 if name == "term" else 9 if name == "kill" else int(name[3:])
             kills = [c for c in log if c.startswith("kill(")]
